@@ -5,6 +5,7 @@ import numpy as np
 from hypothesis import strategies as st
 
 from vf.harness import Check
+from vf.gen.util import weighted
 from vf.gen import lens as GL
 from vf.gen.build import build
 from vf.ref import zernike as RZ
@@ -82,7 +83,7 @@ class C10(Check):
         lens = st.fixed_dictionaries(dict(kind=st.just('lens'), family=st.sampled_from(FAMILIES),
                                           spec=GL.lens_spec('imaging', min_surfs=2), N=st.integers(4, 37),
                                           rings=st.integers(3, 6), fld=st.integers(0, 3)))
-        return st.one_of(fit, fit, fit, lens)
+        return weighted((3, fit), (1, lens))
 
     def describe(self, case):
         if case['kind'] == 'lens':
